@@ -470,6 +470,31 @@ def integer_power_hazards(f, array_params):
     return out
 
 
+def result_dtype_hazards(f, array_params):
+    """[(node, text)]: the result is allocated with the dtype of an array argument still in the caller's dtype -
+    numpy.piecewise(x, ...) (output has x's dtype), zeros_like / empty_like / ones_like / full_like(x) without dtype=, or
+    out=x: for integer-typed input (numpy.arange, whole-number lists) every value written is truncated to an integer."""
+    out = []
+    arr = set(array_params) & set(f.params + f.kwonly)
+    floated = set()
+    for n in ast.walk(f.node):
+        if isinstance(n, ast.Assign) and len(n.targets) == 1 and isinstance(n.targets[0], ast.Name) and n.targets[0].id in arr:
+            txt = norm_text(n.value)
+            if "float" in txt or "/" in txt:
+                floated.add(n.targets[0].id)
+    for n in ast.walk(f.node):
+        if not isinstance(n, ast.Call):
+            continue
+        nm = norm_text(n.func).split(".")[-1]
+        a0 = n.args[0] if n.args else None
+        raw = isinstance(a0, ast.Name) and a0.id in arr and a0.id not in floated
+        if nm == "piecewise" and raw:
+            out.append((n, "%s: numpy.piecewise returns an array of the dtype of `%s`" % (norm_text(n)[:60], a0.id)))
+        elif nm in ("zeros_like", "empty_like", "ones_like", "full_like") and raw and not any(k.arg == "dtype" for k in n.keywords):
+            out.append((n, "%s: the result array has the dtype of `%s`" % (norm_text(n)[:60], a0.id)))
+    return out
+
+
 def canon_iteration_sums(v, length_of):
     """sums accumulated by iterating over sequences (`for x in A`, `for a, b in zip(A, B)`, `for i, a in enumerate(A)`) written
     as the sum over positions range(0, n): loopsum(body(pos#), tag, iteration-key) -> loopsum(body(pos), tag, (0, n, 1)).
